@@ -102,6 +102,7 @@ class Gen:
         acts = self.p['slots']
         self.scripts[0] = []
         self.emitting_scripts = set()
+        self.wild_scripts = set()   # may emit ANY signal: never given to deferred connections (self-feeding passes do not end)
         if not acts:
             return
         for sid in range(1, 14):
@@ -139,6 +140,7 @@ class Gen:
                     if sid % 3 == 0:
                         body.append(("EMIT", r.randrange(8)))
                         self.emitting_scripts.add(sid)
+                        self.wild_scripts.add(sid)
                     else:
                         body.append(f"active {h}")
             self.scripts[sid] = body
@@ -163,6 +165,8 @@ class Gen:
         cands = list(self.scripts.keys())
         if tier == 1 or (deferred and not self.p.get('deferred_emit')):
             cands = [s for s in cands if s not in self.emitting_scripts]
+        if deferred:
+            cands = [s for s in cands if s not in self.wild_scripts]
         return r.choice(cands)
 
     def pick_handle(self):
